@@ -1,4 +1,4 @@
 INIT Init
 NEXT Next
-INVARIANTS LoadOfSave CanonIdempotent SaveLoadSave MutatedLoadsSafely UniverseShapeOK
+INVARIANTS LoadOfSave CanonIdempotent SaveLoadSave MutatedLoadsSafely UniverseShapeOK ShellExists
 CHECK_DEADLOCK FALSE
